@@ -1,9 +1,18 @@
 (* C07: under-margined positions can always be liquidated.  Statements only.
    The full liveness statement is refuted on the current tree for the classes listed in
    known_findings.jsonl; what is proved here: the refutation for deployments on the repository's
-   own price feed, and the guard chain of Liquidate (what it demands and nothing more). *)
+   own price feed; the guard chain of Liquidate (what it demands and nothing more); and the positive
+   direction for the full-liquidation branch: the execute arm accepts whenever the named guards hold,
+   the reply goes through however far under water the position is (margins saturate, the deficit becomes
+   bad debt), and the whole transaction succeeds when the vAMM fills the closing trade, the fund covers
+   the shortfall and the vault holds the position's remaining equity (the complement of the recorded
+   stale_vault_balance class); only 128-bit overflow is excluded, by an explicit range hypothesis.
+   Proving the last theorem exposed a defect (a zero insurance-fund draw when the bad debt equals the
+   prepaid amount), repaired by fix 40ca1a8.  Not proved: the partial-liquidation branch (refuted, see
+   sign_blind_partial / partial_underflow). *)
 From MP.Model Require Import Prelude U128 SInt Feed Vamm VammOps Token World Engine Runtime.
-From MP.Proofs Require Import Tactics SIntFacts EngineArith CloseFacts LiqFacts.
+From MP.Proofs Require Import Tactics SIntFacts EngineArith CloseFacts LiqFacts LiveFacts.
+From MP.Model Require Import Scenario.
 
 (* C07_live_refuted (class real_feed_decode): with the repository's own feed behind the vAMM every
    Liquidate fails, whatever the position's state *)
@@ -24,3 +33,84 @@ Theorem C07_guard_chain_partial : forall w s v t lim r,
              require_vamm (with_liquidator w s) v = Ok tt.
 Proof. exact liquidate_only_if. Qed.
 Print Assumptions C07_guard_chain_partial.
+
+(* C07_live_partial, execute arm: the named guards are sufficient on the full-liquidation branch *)
+Theorem C07_execute_arm_accepts : forall w s v t lim mr,
+  let wl := with_liquidator w s in
+  let c := ec (w_eng w) in
+  liq_ratio wl v t = Ok mr ->
+  require_vamm wl v = Ok tt ->
+  sgtb mr (spos (e_maint c)) = false ->
+  sval (p_size (read_position (w_eng w) v t)) <> 0 ->
+  (e_liqfee c <? sval mr) && negb (e_plr c =? 0) = false ->
+  e_liquidate w s v t lim =
+    Ok (fst (internal_close_position wl v t (read_position (w_eng w) v t) lim LIQUIDATION_ID),
+        [snd (internal_close_position wl v t (read_position (w_eng w) v t) lim LIQUIDATION_ID)]).
+Proof. exact liquidate_execute_live. Qed.
+Print Assumptions C07_execute_arm_accepts.
+
+(* the reply of a full liquidation never fails because of the sign or size of the equity *)
+Theorem C07_reply_goes_through : forall w i o swap liq,
+  e_tmp (w_eng w) = Some swap -> e_liq (w_eng w) = Some liq ->
+  let c := ec (w_eng w) in let st := es (w_eng w) in
+  let v := ts_vamm swap in let t := ts_trader swap in
+  let p := get_position (w_eng w) (w_env w) v t (ts_side swap) in
+  let lat := cumulative_premium_fraction (w_eng w) v in
+  pos_wf p -> cpf_wf (w_eng w) v -> 0 < e_dec c -> 0 <= o -> 0 <= ts_open_notional swap -> 0 <= e_liqfee c ->
+  0 <= e_bad_debt st -> 0 <= engine_balance w ->
+  sval lat < MAXU -> sval (p_lupf p) < MAXU -> sval (p_size p) < MAXU -> e_dec c < MAXU ->
+  Z.abs (toZ lat - toZ (p_lupf p)) < MAXU ->
+  Z.abs ((toZ lat - toZ (p_lupf p)) * toZ (p_size p)) + ts_open_notional swap + o + p_margin p + o * e_liqfee c
+    + e_bad_debt st + engine_balance w < MAXU ->
+  exists w' msgs, liquidate_reply w i o = Ok (w', msgs).
+Proof. exact liquidate_reply_live. Qed.
+Print Assumptions C07_reply_goes_through.
+
+(* END TO END: a Liquidate call by any account s (no fault injected: f < 0) on the full-liquidation branch succeeds *)
+Theorem C07_full_liquidation_succeeds_partial : forall f w s v t lim mr p vm vm' q b,
+  f < 0 ->
+  let wl := with_liquidator w s in
+  let c := ec (w_eng w) in let st := es (w_eng w) in
+  find_position (w_eng w) v t = Some p -> sval (p_size p) <> 0 ->
+  liq_ratio wl v t = Ok mr -> sgtb mr (spos (e_maint c)) = false ->
+  require_vamm wl v = Ok tt ->
+  (e_liqfee c <? sval mr) && negb (e_plr c =? 0) = false ->
+  get_vamm w v = Ok vm ->
+  swap_output vm (w_env w) A_ENGINE (side_to_direction (direction_to_side (p_dir p))) (sval (p_size p)) lim = Ok (vm', (q, b)) ->
+  let lat := cumulative_premium_fraction (w_eng w) v in
+  let X := Z.abs ((toZ lat - toZ (p_lupf p)) * toZ (p_size p)) in
+  let tb := bal (w_tok w) A_ENGINE in let fund := bal (w_tok w) A_IFUND in
+  pos_wf p -> cpf_wf (w_eng w) v -> 0 < e_dec c -> 0 <= q -> 0 <= e_liqfee c ->
+  0 <= e_bad_debt st -> 0 <= tb -> 0 <= bal (w_tok w) s ->
+  sval lat < MAXU -> sval (p_lupf p) < MAXU -> sval (p_size p) < MAXU -> e_dec c < MAXU ->
+  Z.abs (toZ lat - toZ (p_lupf p)) < MAXU ->
+  X + p_notional p + q + p_margin p + q * e_liqfee c + e_bad_debt st + tb + fund + bal (w_tok w) s < MAXU ->
+  e_ifund c = A_IFUND -> if_engine (w_if w) = A_ENGINE -> s <> A_ENGINE -> s <> A_IFUND ->
+  X + p_notional p + q + p_margin p + q * e_liqfee c <= fund ->
+  liq_equity w v p (p_notional p) q <= tb ->
+  exists w', exec_op f w (OEngine s (ELiquidate v t lim) 0) = Ok w'.
+Proof. exact liquidate_full_tx_live. Qed.
+Print Assumptions C07_full_liquidation_succeeds_partial.
+
+(* non-vacuity: the theorem's hypotheses hold together on a concrete state - the scenario deployment with the
+   maintenance ratio raised to 100% and a 5% liquidation fee; the theorem is applied to it *)
+Definition c07_world : option world :=
+  match scenario with
+  | Ok w =>
+      match exec_op (-1) w (OEngine 1 (EUpdateConfig None None None (Some 1000000) None None None) 0) with
+      | Ok w1 =>
+          match exec_op (-1) w1 (OEngine 1 (EUpdateConfig None None None None (Some 1000000) None (Some 50000)) 0) with
+          | Ok w2 => Some w2 | Err _ => None end
+      | Err _ => None end
+  | Err _ => None
+  end.
+Ltac dec_goal := first [ reflexivity | (vm_compute; first [reflexivity | discriminate | (intros; discriminate) | (repeat split; intros; discriminate)]) ].
+Example C07_live_instance :
+  (exists w, c07_world = Some w) /\
+  forall w, c07_world = Some w -> exists w', exec_op (-1) w (OEngine 31 (ELiquidate 11 21 0) 0) = Ok w'.
+Proof.
+  split; [vm_compute; eexists; reflexivity|].
+  intros w H. vm_compute in H. injection H as <-.
+  eapply liquidate_full_tx_live.
+  all: dec_goal.
+Qed.
